@@ -1083,6 +1083,11 @@ def run(chk):
     # the three known findings must still be what they were: replay their canonical witnesses
     report(chk, out)
 
+    # tie to the source by regeneration: the listed definitions are re-translated from /repo by py2coq on
+    # every run and PROVED equal to the hand models (coq/props/TIE.v), plus a translator self-check
+    from props._tie import run_tie
+    run_tie(chk, ['deparse'])
+
 
 def replay(chk, payload):
     job = payload.get("job")
